@@ -169,11 +169,10 @@ def _num(v):
     raise TypeError
 
 
-def canonical_xml(el) -> str:
-    try:
-        return etree.tostring(el, method='c14n2', strip_text=False).decode()
-    except Exception:  # noqa: BLE001
-        return etree.tostring(el).decode()
+def canonical_xml(el):
+    """prefix independent structural form of an lxml element (raw / extension content)"""
+    kids = [canonical_xml(c) for c in el if isinstance(c.tag, str)]
+    return [el.tag, sorted([k, v] for k, v in el.attrib.items()), el.text or '', kids]
 
 
 def public_canonical(obj):
